@@ -204,7 +204,7 @@ def check_message(ctx, fmt, spec, raw, m, same_offset, atts=True, quoted=False):
             if err or via != exp:
                 missing = [a.filename for a in m.attachments if not a.is_supported_mime_type
                            and alone_extract(a.filename, a.mime_type, a.data.getvalue())]
-                key = "attachment-supported-name-unlisted-mime" if missing and not err else f"attachment-not-as-alone:{tag}"
+                key = "attachment-supported-name-unlisted-mime" if missing and not err and len(via) < len(exp) else f"attachment-not-as-alone:{tag}"
                 ctx.finding(key, f"iterate_supported_attachments gives {len(via)} result(s), the attached files on their own "
                             f"{len(exp)}" + (f"; skipped although supported by name: {missing}" if missing else "") + (f"; {err}" if err else ""),
                             rep("iterate_supported_attachments", via, exp))
@@ -390,7 +390,8 @@ def run(ctx):
         "C16_mbox_roundtrip", "C16_mbox_boundaries_only_at_separators", "C16_mbox_unescaped_From_splits_refuted",
         "C16_mbox_escaped_one_per_message", "C16_mbox_quoting_undone_refuted", "C16_body_selection_spec",
         "C16_body_outside_attachments_refuted", "C16_unfold_inverts_folding", "C16_decode_fallback", "C16_address_list",
-        "C16_full_text_plain_else_html", "C16_attachment_routing", "C16_attachment_same_as_alone", "C16_attachments_independent"])
+        "C16_full_text_plain_else_html", "C16_attachment_routing", "C16_attachment_same_as_alone", "C16_attachments_independent",
+        "C16_attachment_contribution_context_free"])
     ctx.prove("C16/Inst.v", ["Gen/C16Tables.vo", "C16/Corr.vo"], expected=[
         "C16_tables_wf", "C16_mime_fallback_ok", "C16_fallback_paths_lower_case", "C16_from_pattern_is_modelled",
         "C16_fold_pattern_is_modelled", "C16_literals"])
@@ -479,7 +480,7 @@ def run(ctx):
             om.add_attachment(email.message_from_bytes(G.build(inner), policy=email.policy.default))
             outer["forwarded"] = inner
             raw = om.as_bytes().replace(b"\r\n", b"\n")
-            if str(email.message_from_bytes(raw, policy=email.policy.default)["Subject"]) == outer["subject"]:
+            if G.lossless(outer, raw, headers_only=True):
                 specs.append((outer, raw))
         except Exception:  # noqa
             pass
@@ -716,6 +717,72 @@ def run(ctx):
             att_info.append((name, mt, flag, obs))
             ctx.case(("att", name, mt, flag), bool(ran), kind="route:" + ("ran" if ran else "skip"))
 
+    # ---- D4b: whole messages of 2-4 attachments sharing ONE declared MIME type but of different file types, in varying
+    #      order: (a) the spy-router sequence of (extractor, file name) runs against the model's iteration, (b) with the
+    #      real extractors, every attachment's results (type and text) against the same bytes extracted alone
+    docs = {"notes.txt": b"plain notes\nline two\n", "report.html": b"<html><body><h1>Report</h1><p>para <b>bold</b></p></body></html>",
+            "data.csv": b"a,b\n1,2\n", "conf.json": b'{"k": "v"}', "readme.md": b"# Title\n\ntext\n", "page.HTM": b"<p>upper <i>case</i> ext</p>",
+            "paper.docx": G.tiny_docx("docx paragraph\nsecond"), "table.tsv": b"a\tb\n1\t2\n", "noext": b"no extension here",
+            "blob.bin": b"\x00\x01\x02", "NOTES2.TXT": b"second text file\n", "mail.eml": b"From: a@b.c\nSubject: inner\nDate: Mon, 01 Jan 2024 12:00:00 +0000\n\ninner body\n"}
+    shared_mimes = ["application/octet-stream", "text/plain", "application/pdf", "text/html", G.DOCX_MT, "application/x-custom-binary", "text/csv"]
+    list_cases, list_info = [], []
+    for k in range(ctx.n(90, 700)):
+        mt = shared_mimes[k % len(shared_mimes)] if k % 4 else rng.choice(mimes)
+        chosen = rng.sample(sorted(docs), rng.randrange(2, 5))
+        if rng.random() < 0.3:
+            chosen.append(rng.choice(chosen))           # the same file twice
+        flag = is_supported_mime_type(mt)
+        mk = lambda: EmailContent(from_email=EmailAddress(), attachments=[EmailAttachment(n, mt, io.BytesIO(docs[n]), flag) for n in chosen])
+        # (a) spy
+        ran = []
+
+        def spy2(path, _r=ran):
+            f = orig_get(path)
+
+            def stub(data, fn, _f=f):
+                _r.append(((_f.__module__, _f.__name__), fn))
+                return iter(())
+            return stub
+        router.get_extractor = spy2
+        try:
+            try:
+                list(mk().iterate_supported_attachments())
+                obs = "(Some " + coq_list([pair(pair(coq_str(e[0]), coq_str(e[1])), coq_str(fn)) for e, fn in ran]) + ")"
+            except ExtractionFileFormatNotSupportedError:
+                obs = "None"
+        finally:
+            router.get_extractor = orig_get
+        paths = sorted(set(chosen)) + [f"attachment.{MIME_TYPE_MAPPING.get(mt, 'zz')}"]
+        lt = coq_list([pair(coq_str(p_), coq_str(p_.lower())) for p_ in paths])
+        mtab = coq_list([pair(coq_str(p_.lower()), coq_opt(mimetypes.guess_type(p_.lower())[0], coq_str)) for p_ in paths])
+        list_cases.append(f"({lt}, {mtab}, {coq_list([f'({coq_str(n)}, {coq_str(mt)}, {coq_bool(flag)})' for n in chosen])}, {obs})")
+        list_info.append((mt, chosen, obs[:300]))
+        ctx.case(("att-list", mt, tuple(chosen)), True, kind=f"route-list:{len(chosen)}")
+        # (b) real extractors: per attachment, in context == alone
+        if k < ctx.n(45, 300):
+            try:
+                via = [(type(r).__name__, r.get_full_text()) for r in mk().iterate_supported_attachments()]
+                err = None
+            except Exception as ex:  # noqa
+                via, err = [], repr(ex)
+            per = [alone_extract(n, mt, docs[n]) or [] for n in chosen]
+            exp = [x for r in per for x in r]
+            if err or via != exp:
+                # name the first attachment whose contribution differs
+                pos, bad = 0, None
+                for n, r in zip(chosen, per):
+                    if via[pos:pos + len(r)] != r:
+                        bad = (n, via[pos:pos + len(r)], r)
+                        break
+                    pos += len(r)
+                ctx.finding(f"attachment-depends-on-neighbours:{mt}", f"attachments {chosen} all declared {mt!r}: {bad[0] if bad else '?'} comes out as "
+                            f"{[(x[0], x[1][:40]) for x in (bad[1] if bad else via)]!r} in the message but as {[(x[0], x[1][:40]) for x in (bad[2] if bad else exp)]!r} "
+                            f"on its own" + (f"; {err}" if err else ""),
+                            {"mime_type": mt, "filenames": chosen, "files_b64": {n: base64.b64encode(docs[n]).decode() for n in set(chosen)},
+                             "in_message": via, "alone": exp})
+
+    corr("attachment_lists", "(att_list_case T)", list_cases, list_info,
+         "list (str * str) * list (str * option str) * list (str * str * bool) * option (list (C07.Model.extractor * str))", shard=200)
     corr("body", "body_case", body_cases, body_info, "bool * part * (str * str)", shard=120)
     corr("header", "header_case", hdr_cases, hdr_info, "dh_table * dec_table * u8_table * str * str", shard=200)
     corr("address", "addr_case", addr_cases, addr_info, "dh_table * dec_table * u8_table * str * list (str * str) * list (str * str)", shard=200)
